@@ -50,13 +50,15 @@ CHECKS = {
     'C11': {
         'level': 'Every misuse listed in C11 is run in the abstract interpreter and must end in ValueError on every path through undetermined '
                  'branches (complex x / complex valued f for complex-step methods in all five classes, on fresh and on previously used objects; '
-                 'multicomplex n = 3..10; too few steps; wrong output size; directionaldiff / fd_weights / fd_derivative / Residue / path guards).',
+                 'multicomplex n = 3..10 for Derivative, Jacobian and Gradient; too few steps; wrong output size; directionaldiff / fd_weights / '
+                 'fd_derivative / Residue guards; 14 path names other than the two valid ones).',
         'note': 'Complex misuse is modelled as "definitely non-real" values; complex dtype with zero imaginary parts is legal input and not covered.',
         'technique': 'abstract interpretation of the misuse calls (data-abstract and exact-algebra domains): a ValueError guard must dominate every return',
     },
     'C10': {
         'level': 'Generated sequences of the Basic/Min/Max/C step generators for symbolic base step, ratio and x against the closed forms parsed from the '
                  'class docstrings; ordering; defaults (base step, ratio, nominal step, counts incl. the CStepGenerator docstring formula); option handling; '
+                 'the zero filter for scalar and array valued steps (an array step is kept only if no element is zero); '
                  'and, by end-to-end abstract runs, that every default (method, n 1..10, order 1..8) configuration gets enough steps.',
         'note': 'default_scale has no specification other than the code and is not checked. Assumes ratio > 1, base step > 0, no zero step.',
         'technique': 'abstract interpretation of the generator classes over exact algebra; code/docstring agreement; end-to-end abstract runs of Derivative',
@@ -64,14 +66,16 @@ CHECKS = {
     'C13': {
         'level': 'Formal clauses of C13 by abstract interpretation of dea3: Shanks fixed-point identity (rational function identity in L, a, q), form of '
                  'the convergence / irregular-behaviour guard (cross-checked against Dea._dea), non-negative error estimate, no in-place write to '
-                 'inputs, elementwise dependence and shapes, symmetric trimming, nothing raises. Rounding bounds / honesty of the estimate not decided.',
+                 'inputs, elementwise dependence and shapes, symmetric trimming, nothing raises, and every division by / product of data values of the '
+                 'abstract run happens with the floating-point warnings silenced. Rounding bounds / honesty of the estimate not decided.',
         'note': 'Regularisers dropped for the identity. Trusted: abstract interpreter, exact rational-function algebra.',
         'technique': 'abstract interpretation of dea3 over exact algebra (guarded choices kept symbolic) and over the data-dependence / sign / aliasing domain',
     },
     'C14': {
         'level': 'EpsAlg against the exact Wynn epsilon table for symbolic sequences (rational function identities); Dea: first extrapolation equals dea3, '
                  'values are even-order table entries with guards off through table shifts, table index bound explored over every guard outcome when more '
-                 'terms than the table holds are fed, error floor. Finiteness under rounding not decided.',
+                 'terms than the table holds are fed, error floor from the third term on for every guard outcome (also after a restart of the table). '
+                 'Finiteness under rounding not decided.',
         'note': 'Open known finding: IndexError on the all_converged path (F8). The EpsAlg vanishing-difference guard is accepted up to 1e-30.',
         'technique': 'abstract interpretation of EpsAlg/Dea over exact rational functions and over an opaque-data domain with exploration of guard outcomes',
     },
